@@ -63,10 +63,17 @@ func NewDB(conn *sql.DB, schema *Schema) *DB {
 		Many: func(ctx context.Context, items []interface{}) ([]interface{}, error) {
 			table := items[0].(*BaseSelectQuery).Table
 
-			// First, build the SQL query.
+			// First, build the SQL query. Convert all filter values to driver values
+			// with the columns' valuers, like makeWhere does for a single query, so
+			// that the SQL arguments and the matching below do not depend on which Go
+			// type was used to spell a value.
 			filters := make([]Filter, 0, len(items))
 			for _, item := range items {
-				filters = append(filters, item.(*BaseSelectQuery).Filter)
+				filter, err := table.driverValues(item.(*BaseSelectQuery).Filter)
+				if err != nil {
+					return nil, err
+				}
+				filters = append(filters, filter)
 			}
 			clause, args := makeBatchQuery(filters)
 			query, err := db.Schema.makeSelect(table.Type, nil, &SelectOptions{
@@ -95,17 +102,15 @@ func NewDB(conn *sql.DB, schema *Schema) *DB {
 
 			// Finally, match the returned rows against the queries.
 			matcher := newMatcher()
-			for i, item := range items {
-				query := item.(*BaseSelectQuery)
-				// XXX: This needs more rigor, and a test. For now, call coerceMap on rows
-				// and filters to flatten out all pointers to values, etc., to copy what
-				// the row tester does when matching against the binlog. This way, a filter
-				// specifying age=48 will match a value *age=48.
-				matcher.add(i, coerceMap(query.Filter))
+			for i, filter := range filters {
+				matcher.add(i, filter)
 			}
 			results := make([][]interface{}, len(items))
 			for _, row := range rows {
-				f := coerceMap(table.extractRow(row))
+				f, err := table.driverValues(table.extractRow(row))
+				if err != nil {
+					return nil, err
+				}
 				for _, idx := range matcher.match(f) {
 					i := idx.(int)
 					results[i] = append(results[i], row)
